@@ -30,6 +30,8 @@ def state_rule(ctx: Ctx, res: Result, RID: str):
     ace = p.func(AC + ".__exit__")
     recs = [c for c in t.calls_in(ace) if any(x.qname == LA + ".record_triggered" for x in t.resolve_call(c, ace).repo)]
     flag = None
+    if not recs:
+        res.fail(Finding(RID, ace.qname, "<record_triggered(ts)>", ace.loc(), "the action context never records a fire when it closes: fire_count and fire_period limit nothing"))
     for c in recs:
         conds = paths.conditions(p, c, ace)
         ht = [cc for cc, pol in conds if pol and isinstance(cc, ast.Call) and any(x.name == "has_triggered" for x in t.resolve_call(cc, ace).repo)]
@@ -45,6 +47,9 @@ def state_rule(ctx: Ctx, res: Result, RID: str):
     for f, c in all_rec:
         if f is not ace:
             res.fail(Finding(RID, f.qname, c, f.loc(c), "record_triggered is also called outside ActionContext.__exit__"))
+    if flag and "." not in flag:
+        res.fail(Finding(RID, ace.qname, flag, ace.loc(), "the `processed` test does not read a field of the action context (%s): fires are recorded never or always" % flag))
+        flag = None
     if flag:
         fld = flag.rsplit(".", 1)[1]
         acls = p.cls(AC)
@@ -303,7 +308,10 @@ def run(ctx: Ctx, tier: str) -> Result:
     TS_FIELD = None
     for f, callee in ((acc, "can_trigger"), (ace, "record_triggered")):
         calls = [c for c in t.calls_in(f) if any(x.qname == LA + "." + callee for x in t.resolve_call(c, f).repo)]
-        need(len(calls) == 1, "%s: expected one call of LocationAction.%s" % (f.qname, callee))
+        if len(calls) != 1:
+            res.fail(Finding("C04.UNITS", f.qname, "<location_action.%s(ts)>" % callee, f.loc(), "%s consults LocationAction.%s %d times (expected once): the limits are not %s" % (
+                f.name, callee, len(calls), "checked" if callee == "can_trigger" else "advanced")))
+            continue
         arg = ctx.expand.expand(calls[0].args[0], f) if calls[0].args else []
         if len(arg) == 1 and arg[0].startswith("@self.trigger_context.") and (TS_FIELD is None or TS_FIELD == arg[0]):
             TS_FIELD = arg[0]
